@@ -357,7 +357,7 @@ def reason_lemma(F, R, sf, sres, eres):
         form = other_form(F, sf, b, other)
         r = bool_branch(b, bi, s['lhs']['l'])
         if form is None or not r:
-            R.ob('C09.opt-props', '%s|reason-string-fit-test' % short_fn(b.path), False, 'cannot extract the reason-string condition', b.loc(bi))
+            R.undecided('C09.opt-props', '%s|reason-string-fit-test' % short_fn(b.path), 'cannot extract the reason-string condition', b.loc(bi))
             continue
         _, tt, ft = r
         # on which edge is the reason string emitted / counted?
@@ -370,7 +370,7 @@ def reason_lemma(F, R, sf, sres, eres):
         work_t = does_work(tt, ft)
         work_f = does_work(ft, tt)
         if work_t == work_f:
-            R.ob('C09.opt-props', '%s|reason-string-fit-test' % short_fn(b.path), False, 'cannot tell on which edge the reason string is handled', b.loc(bi))
+            R.undecided('C09.opt-props', '%s|reason-string-fit-test' % short_fn(b.path), 'cannot tell on which edge the reason string is handled', b.loc(bi))
             continue
         cconst, clen = form
         op = rv['op']
@@ -895,7 +895,7 @@ def limit_arith(F, R):
             ok = c16.guarded_arith(b, s) or guarded_cast_cmp(b, s['block'], t) or (const_val(t['a']) is not None and const_val(t['b']) is not None and const_val(t['a']) >= const_val(t['b']))
             R.ob('C09.limit-arith', '%s|sub#%d-guarded' % (short_fn(p), k), ok,
                  'unsigned subtraction %s - %s in a size computation is not protected by a comparison of the same values: a small limit underflows (panic in debug, huge limit in release)' % (op_str(t['a']), op_str(t['b'])), s['loc'])
-    R.floor('C09.limit-arith', 'subtractions in size functions', n, 4)
+    R.floor('C09.limit-arith', 'subtractions in size functions', n, 1)
     # the limit parameter reaches only the diagnostics sizers
     for p in sorted(F.bodies):
         if not re.search(r'EncodeLtd>::encoded_size$', p):
@@ -960,11 +960,8 @@ def only_diagnostics(F, R):
     if not r or r[0] == 'discr':
         raise AnchorLost('encodev: branch on NO_PROBLEM_INFO')
     _, tt, ft = r
-    region = b.reachable(tt, avoid=[ft])
-    join = [bi for bi, t in b.calls() if re.search(r'Cell::<T>::get$', callee_name(t) or '') and (call_recv_path(b, t, 0) or ('',))[-1] == 'max_out_size']
-    if not join:
-        raise AnchorLost('encodev: max_out_size read')
-    region = b.reachable(tt, avoid=[ft, join[0]])
+    # the code that runs only under the flag: reachable from the true edge and not from the false edge
+    region = b.reachable(tt, avoid=[ft]) - b.reachable(ft)
     flag_arg = apath(b, cont[0][1]['args'][1]) if len(cont[0][1]['args']) > 1 else None
     R.ob('C09.only-diagnostics-dropped', 'v5::Codec::encodev|tested-flag==NO_PROBLEM_INFO', flag_is(F, b, cont[0][1], 'NO_PROBLEM_INFO'), 'the block that strips diagnostics is conditioned on a different flag', b.loc(cont[0][0]))
     allowed = {'properties', 'user_properties', 'reason_string'}
@@ -995,7 +992,7 @@ def only_diagnostics(F, R):
         reg = set()
         for e in ve.get(v, []):
             if e[0] in region or e[1] in region:
-                reg |= b.reachable(e[1], avoid=[join[0]]) & region
+                reg |= b.reachable(e[1]) & region
         got = set()
         for bi, base, field, var in mut:
             if bi in reg:
